@@ -137,8 +137,17 @@ def leaf_class(name):
     return discover()[0][name]
 
 
+class Plain:
+    """a plain callable member (torchvision transform / lambda): knows nothing about generators, strength or workers"""
+
+    def __call__(self, x):
+        return x * 1.0
+
+
 def build(spec):
     kind = spec[0]
+    if kind == "plain":
+        return Plain()
     if kind == "leaf":
         kwargs, _ = LEAVES[spec[1]][spec[2]]
         if spec[1] == "KDTransformChoice":
@@ -173,6 +182,8 @@ def spec_inputs(spec):
 
 def spec_name(spec):
     kind = spec[0]
+    if kind == "plain":
+        return "plain"
     if kind == "leaf":
         return spec[1] + (f"#{spec[2]}" if spec[2] else "")
     if kind == "compose":
@@ -206,6 +217,12 @@ def composition_specs(depth, reduced=None):
         out.append(("scheduled", a))
         for b in leaves:
             out.append(("compose", a, b))
+    # plain callables at every position of a composition
+    pl = ("plain",)
+    for a in [COMPOSABLE[i] for i in (0, 2, 4, 8)]:
+        b = COMPOSABLE[3]
+        out += [("compose", pl, a), ("compose", a, pl, b), ("compose", pl, pl, a, b), ("random_apply", 0.5, ("compose", pl, a)),
+                ("scheduled", ("compose", b, pl, a)), ("compose", ("compose", pl, a), b)]
     if depth >= 2:
         red = reduced or [COMPOSABLE[i] for i in (2, 4, 8, 9, 6)]
         d1 = []
